@@ -4,6 +4,7 @@ package main
 
 import (
 	"bytes"
+	"encoding/json"
 	"fmt"
 	"math"
 )
@@ -96,6 +97,19 @@ func c08Echo(c *caseCtx) {
 	if len(d.View.Biases) != len(enabled) {
 		c.violate("biases-count", fmt.Sprintf("%d entries in biases, %d non-disabled biases requested", len(d.View.Biases), len(enabled)), M{"request": g.M, "biases": d.View.Biases})
 		return
+	}
+	// every entry carries its name and applyProbability in the response body itself
+	var raw struct {
+		Biases []map[string]interface{} `json:"biases"`
+	}
+	json.Unmarshal(d.JSON, &raw)
+	for i, rb := range raw.Biases {
+		_, hasN := rb["name"]
+		_, hasP := rb["applyProbability"].(float64)
+		if !hasN || !hasP {
+			c.violate("biases-echo", fmt.Sprintf("biases[%d] of the response body lacks name / applyProbability: %v", i, rb), M{"request": g.M})
+			return
+		}
 	}
 	fired := 0
 	for i, b := range enabled {
